@@ -1,4 +1,5 @@
 """C12 - Zernike fit / compose / remove are mutually inverse for any mode set."""
+import ast
 from .. import nf, bind
 from ..nf import Poly, Tup, Const, NONE, TRUE
 from ..model import AnalysisError
@@ -143,6 +144,38 @@ def run(chk, repo, tier):
         ok = ok and good
         det = f'basis call: ' + ', '.join(f'{k}={fmt(v)}' for k, v in b.items())
     chk.ob('C12-d', 'D-flow', ffit.key, 'pseudo-inverse of the vectorised basis of the same modes', ok, det, ffit.loc())
+    # the OPD is flattened in the order the basis is flattened in (C order): no order='K'/'F'/'A' anywhere in the module
+    odd_order = []
+    for fn_ in repo.all_functions():
+        if fn_.module.name != 'zernike':
+            continue
+        for n in ast.walk(fn_.node):
+            if isinstance(n, ast.Call) and isinstance(n.func, ast.Attribute) and n.func.attr in ('ravel', 'flatten', 'reshape', 'flat'):
+                for k in n.keywords:
+                    if k.arg == 'order' and not (isinstance(k.value, ast.Constant) and k.value.value == 'C'):
+                        odd_order.append(f'{fn_.key}: {ast.unparse(n)[:60]} at {fn_.loc(n)}')
+                if n.func.attr in ('ravel', 'flatten') and n.args and not (isinstance(n.args[0], ast.Constant) and n.args[0].value == 'C'):
+                    odd_order.append(f'{fn_.key}: {ast.unparse(n)[:60]} at {fn_.loc(n)}')
+    chk.ob('C12-d', 'U-axis', 'zernike', 'arrays are flattened in C order everywhere (OPD samples and basis rows pair up)', not odd_order,
+           '; '.join(odd_order[:2]) or 'no non-C flattening', '')
+    # compose adds every coefficient: a term may only be skipped when the coefficient is exactly zero
+    _, cpaths, _ = analyse(repo, fcomp)
+    skip_bad, n_loops = [], 0
+    for p in returns(cpaths):
+        for lp in p.state.loops:
+            if lp['func'] != fcomp.key:
+                continue
+            n_loops += 1
+            for bs, conds in zip(lp['states'], lp['conds']):
+                adds = [e for e in bs.events[lp['n_pre_events']:] if e.kind == 'write' and e.data.get('how') == 'augassign']
+                if adds:
+                    continue
+                exact = conds and all(isinstance(c, Poly) and c.single_atom() is not None and is_app(c.single_atom(), 'eq')
+                                      and C(0) in c.single_atom()[2] and pol for c, pol, _ in conds)
+                if not exact:
+                    skip_bad.append('a step adds nothing when ' + ' & '.join(f'{"" if pol else "not "}{fmt(c)[:60]}' for c, pol, _ in conds))
+    chk.ob('C12-d', 'D-dominance', fcomp.key, 'every coefficient contributes (a term is skipped only for an exactly zero coefficient)',
+           (not skip_bad) if n_loops else None, '; '.join(sorted(set(skip_bad))[:2]) or f'{n_loops} loop(s), every step accumulates', fcomp.loc())
     # exact recovery for every linearly independent mode set: no singular value is discarded beyond rounding level
     cut_ok, det_c, n_inv = True, '', 0
     for p in rets:
